@@ -1055,6 +1055,7 @@ func init() {
 			{Name: "POS-FORMULA", What: "position / endOfLineOffset equal the layout formulas (polynomial normal form); Position's range check", Floor: 3, Run: rulePosFormula},
 			{Name: "READ-BOUND", What: "Seq.Read: ReadAt count bounded by line rest, range end and buffer on every path; offset = position(cur); cursor/total/buffer advance by the returned count; io.EOF only at cur >= end", Floor: 5, Run: ruleReadBound},
 			{Name: "RANGE-GUARD", What: "SeqRange succeeds iff 0 <= start <= end <= Length (all orderings) and builds the handle from its arguments; Seq covers [0, Length)", Floor: 2, Run: ruleRangeGuard},
+			{Name: "PARSE-WIDTH", What: "the index columns are parsed with the bit size of the field they are stored in (int: 0, int64: 64): a smaller size refuses the line WriteTo wrote for a sequence of 2^31 bases or more (added after seventh-round seed C19-g)", Floor: 2, Run: ruleParseWidth([]string{"fai"}, 2)},
 		},
 		Explanation: "Reading a range is: translate base index to file offset (position), read at most to the end of the line/range/buffer, advance by what was read. The rules fix each of these by construction: the two layout formulas are compared, in polynomial normal form, with the .fai layout definition; the count handed to ReadAt has the three required upper bounds on every path (through verified min functions and phis); the cursor arithmetic is the canonical one; NewIndex's offset accounting is exact on every way round its loop and each Record field is fed from the right one of raw/trimmed length; the text form maps the same fields to the same columns in both directions and the reader's acceptance test is evaluated over every ordering of the numbers it compares.",
 		NotDecided:  "that position∘endOfLineOffset walk exactly the bases for every geometry (arithmetic over all values: the formulas are matched against the definition, not proved to compose), behaviour on files that are not well formed (ragged lines), ReaderAt implementations returning short reads without error.",
